@@ -255,7 +255,15 @@ fn hook_spawn(f: Box<dyn FnOnce() + Send + 'static>) {
     let h = shuttle::thread::spawn(move || {
         let me = hook_thread_id();
         simcore::try_with(|dd| dd.log(|| format!("  sched: spawned thread {me:?} starts")));
-        f();
+        // a panicking job unwinds its thread like a std thread would: drop guards run, the thread ends
+        if let Err(p) = std::panic::catch_unwind(std::panic::AssertUnwindSafe(f)) {
+            let msg = p.downcast_ref::<String>().cloned().or_else(|| p.downcast_ref::<&str>().map(|s| s.to_string())).unwrap_or_default();
+            if !msg.starts_with("[expected]") {
+                simcore::raise("worker-panic", format!("a thread started through the spawn hook panicked: {msg}"));
+            }
+            simcore::try_with(|dd| dd.log(|| format!("  sched: spawned thread {me:?} ends by panic")));
+            return;
+        }
         simcore::try_with(|dd| dd.log(|| format!("  sched: spawned thread {me:?} exits")));
     });
     STATE.with(|s| s.borrow_mut().spawned.push(h));
